@@ -538,4 +538,6 @@ def run(ctx):
     ctx.guard(harden.run_threshold, ctx, prog, 'C12.R11', lambda g: g.file.startswith(MODULES + '/http/server/'), 'HTTP request parser', 1)
     ctx.guard(harden.run, ctx, prog, 'C12.R9', recv_entries(prog),
               lambda g: g.file.startswith(MODULES + '/http/') or g.file.startswith(MODULES + '/util/'), 'HTTP receive/commit path')
+    from tbxlint import progress
+    ctx.guard(progress.run_files, ctx, prog, 'C12.R13', ['http/server/request_parser.cpp', 'http/server/server_imp.cpp', 'http/server/context.cpp', 'http/common.cpp', 'http/url.cpp', 'http/request.cpp', 'http/respond.cpp', 'network/tcp_server.cpp'], 'HTTP receive path', floor=1)
     return prog
